@@ -60,11 +60,20 @@ def run(rng, nscen, steps=14):
         clss = [vcls] + mclss
         wraps = [None] * len(recs)
         graveyard = []                          # earlier wrappers, kept alive on purpose
+        forced, forced_slot = [], None
         ttrace, rtrace, atrace = [], [], []
         for step in range(steps):
             i = rng.randrange(len(recs))
-            op = rng.choice(["wrap", "query", "query", "rot0", "rot", "editfeat", "assemble", "assemble", "rc2", "setseq", "rewrap", "copy"])
+            op = forced.pop(0) if forced else rng.choice(["wrap", "query", "query", "rot0", "rot", "editfeat", "assemble", "assemble", "rc2", "setseq",
+                                                           "rewrap", "copy", "look-edit-look"])
+            if forced_slot is not None:
+                i = forced_slot
+                if not forced:
+                    forced_slot = None
             rec, cls = recs[i], clss[i]
+            if op == "look-edit-look":      # one object: typed, then its sequence is edited in place, then typed again through a new wrapper
+                forced, forced_slot = ["setseq!", "query"], i
+                op = "query"
             if op == "wrap" or (op == "query" and wraps[i] is None):
                 try:
                     wraps[i] = cls(rec)
@@ -103,13 +112,23 @@ def run(rng, nscen, steps=14):
                 rtrace.append(ev)
                 recs[i] = back
                 wraps[i] = None
-            elif op == "setseq":
+            elif op in ("setseq", "setseq!"):
                 # the sequence of a live record is replaced in place (another insert, a destroyed site, another origin);
                 # wrappers made before stay alive in `graveyard`, a new wrapper is needed for new answers
                 from Bio.Seq import Seq
                 old = str(rec.seq)
                 how = rng.random()
-                if how < 0.4:
+                up_ = old.upper()
+                sites = [j for j in range(len(old)) if (up_ + up_)[j:j + len(s)] in (s.upper(), dna.rc(s.upper()))]
+                if op == "setseq!" and sites and how < 0.7:
+                    # a recognition site is destroyed (one letter), or a third one appears
+                    if how < 0.4:
+                        j = (rng.choice(sites) + rng.randrange(len(s))) % len(old)
+                        new = old[:j] + rng.choice([x for x in "ACGT" if x != old[j].upper()]) + old[j + 1:]
+                    else:
+                        j = rng.randrange(len(old))
+                        new = old[:j] + s + old[j:]
+                elif how < 0.4:
                     new = gen.rotate(old, rng.randrange(1, len(old)))
                 elif how < 0.7:
                     new = gen.mutate(old, rng)
